@@ -18,7 +18,7 @@ import (
 // bobby (one generation) and carol (no keys), poison keys, the registry and a translator.
 type World struct {
 	Dir   string
-	KS    *filesystem.KeyStore
+	KS    keystore.ServerKeyStore
 	Alice []byte
 	Bobby []byte
 	Carol []byte
@@ -40,7 +40,8 @@ func TheWorld() *World {
 	worldOnce.Do(func() {
 		Quiet()
 		w := &World{Dir: TempDir("verif-world-"), Alice: []byte("alice"), Bobby: []byte("bobby"), Carol: []byte("carol")}
-		w.KS = V1(w.Dir, keystore.WithoutCache)
+		var v1 *filesystem.KeyStore = V1(w.Dir, keystore.WithoutCache)
+		w.KS = v1
 		for gen := 0; gen < 3; gen++ {
 			must(w.KS.GenerateDataEncryptionKeys(w.Alice))
 			must(w.KS.GenerateClientIDSymmetricKey(w.Alice))
@@ -53,14 +54,25 @@ func TheWorld() *World {
 		}
 		must(w.KS.GenerateHmacKey(w.Alice))
 		GenClientKeys(w.KS, w.Bobby)
-		must(w.KS.GeneratePoisonKeyPair())
-		must(w.KS.GeneratePoisonSymmetricKey())
+		must(v1.GeneratePoisonKeyPair())
+		must(v1.GeneratePoisonSymmetricKey())
 		must(crypto.InitRegistry(w.KS))
 		w.Reg = crypto.NewRegistryHandler(w.KS)
 		w.Svc = Translator(w.KS, nil, nil)
 		world = w
 	})
 	return world
+}
+
+// NewWorldOn wraps an existing keystore (keys are the caller's business): registry handler and
+// translator over it. The registry itself is process-global and independent of the keystore.
+func NewWorldOn(ks keystore.ServerKeyStore, alice, bobby, carol []byte) *World {
+	Quiet()
+	must(crypto.InitRegistry(ks))
+	w := &World{KS: ks, Alice: alice, Bobby: bobby, Carol: carol}
+	w.Reg = crypto.NewRegistryHandler(ks)
+	w.Svc = Translator(ks, nil, nil)
+	return w
 }
 
 // HmacKey returns a fresh copy of a client's HMAC key (GenerateHMAC zeroises its argument).
@@ -96,7 +108,7 @@ func (w *World) Protect(id []byte, kind, form string, plain []byte, gen int) ([]
 	switch kind {
 	case KindStruct:
 		var pub *keys.PublicKey
-		if gen >= 0 && string(id) == "alice" {
+		if gen >= 0 && string(id) == "alice" && len(w.AlicePub) > gen {
 			pub = w.AlicePub[gen]
 		} else {
 			pub, err = w.KS.GetClientIDEncryptionPublicKey(id)
@@ -107,7 +119,7 @@ func (w *World) Protect(id []byte, kind, form string, plain []byte, gen int) ([]
 		env, err = acrastruct.CreateAcrastruct(plain, pub, nil)
 	case KindBlock:
 		var key []byte
-		if gen >= 0 && string(id) == "alice" {
+		if gen >= 0 && string(id) == "alice" && len(w.AliceSym) > gen {
 			key = append([]byte(nil), w.AliceSym[gen]...)
 		} else {
 			key, err = w.KS.GetClientIDSymmetricKey(id)
